@@ -17,6 +17,8 @@ Fixpoint sizes_ok (c : code) : Prop :=
   | CSys _ f => forall sender, addr_ok sender -> blen (encode_event (event_of f sender)) < 2 ^ 62
   | CEmit _ _ => True
   | CProxy _ _ _ _ target inner => addr_ok target /\ sizes_ok inner
+  | CStop => True
+  | CSeq _ _ target inner rest => addr_ok target /\ sizes_ok inner /\ sizes_ok rest
   end.
 
 (** frame invariant: only system-contract code ever runs at a system address *)
@@ -72,11 +74,31 @@ Proof.
   rewrite filter_map_app, filter_app, map_app, Ha, Hb. reflexivity.
 Qed.
 
+(** the invariant passes to the callee's frame, whatever the call kind *)
+Lemma child_frame_inv k target inner x :
+  code_at_ok target inner = true -> is_sys_addr (fx_self x) = false -> frame_inv inner (child_ctx k target x).
+Proof.
+  intros W1 I. unfold code_at_ok in W1.
+  destruct k; cbn [child_ctx fx_self]; destruct inner; cbn [frame_inv];
+    try (apply bytes_eqb_eq in W1; left; exact W1);
+    try (apply negb_true_iff in W1; exact W1);
+    try (right; exact I); try exact I.
+Qed.
+
+Lemma child_addr_ok k target x :
+  addr_ok target -> addr_ok (fx_self x) -> addr_ok (fx_sender x) ->
+  addr_ok (fx_self (child_ctx k target x)) /\ addr_ok (fx_sender (child_ctx k target x)).
+Proof. intros; destruct k; cbn [child_ctx fx_self fx_sender]; split; assumption. Qed.
+
+Lemma batch_tail_inv rest x : is_batch_tail rest = true -> is_sys_addr (fx_self x) = false -> frame_inv rest x.
+Proof. destruct rest; cbn; try discriminate; intros _ I; exact I. Qed.
+
 Theorem exec_code_spec h : forall c x,
   wf_code c = true -> sizes_ok c -> frame_inv c x -> addr_ok (fx_self x) -> addr_ok (fx_sender x) ->
   frame_spec h (exec_code c x).
 Proof.
-  induction c as [hc f | ts d | k ign rev twice target inner IH]; intros x W Z I As Asd; cbn [exec_code].
+  induction c as [hc f | ts d | k ign rev twice target inner IH | | k ign target inner IH rest IHr];
+    intros x W Z I As Asd; cbn [exec_code].
   - (* system contract code *)
     destruct (fx_static x); [apply frame_spec_fail|].
     destruct (hkind_eqb (fn_contract f) hc) eqn:Ec; cbn [negb]; [|apply frame_spec_fail].
@@ -106,15 +128,8 @@ Proof.
     cbn [wf_code] in W. apply andb_true_iff in W as [W1 W2]. cbn [sizes_ok] in Z. destruct Z as [At Z].
     cbn [frame_inv] in I.
     assert (Hc : frame_spec h (exec_code inner (child_ctx k target x))).
-    { apply IH; [exact W2 | exact Z | | |].
-      - (* invariant of the child frame *)
-        unfold code_at_ok in W1. destruct k; cbn [child_ctx fx_self];
-          destruct inner as [hi fi | tsi di | ki igi rvi twi ti ii]; cbn [frame_inv];
-          try (apply bytes_eqb_eq in W1; left; exact W1);
-          try (apply negb_true_iff in W1; exact W1);
-          try (right; exact I); try exact I.
-      - destruct k; cbn [child_ctx fx_self]; assumption.
-      - destruct k; cbn [child_ctx fx_sender]; assumption. }
+    { destruct (child_addr_ok k target x At As Asd) as [A1 A2].
+      apply IH; [exact W2 | exact Z | apply child_frame_inv; assumption | exact A1 | exact A2]. }
     set (r := exec_code inner (child_ctx k target x)) in *.
     destruct (negb (fr_ok r) && negb ign); [apply frame_spec_fail|].
     set (r1 := if fr_ok r then r else {| fr_ok := true; fr_logs := []; fr_ctr := []; fr_inv := [] |}).
@@ -122,6 +137,23 @@ Proof.
     assert (Hrr : frame_spec h (if twice then fapp r1 r1 else r1)).
     { destruct twice; [apply frame_spec_app; exact H1 | exact H1]. }
     destruct rev; [apply frame_spec_fail|]. exact Hrr.
+  - (* end of a batch *)
+    destruct (fx_static x); [apply frame_spec_fail|]. reflexivity.
+  - (* batch: one call, then the rest of the list in the same frame *)
+    destruct (fx_static x) eqn:Es; [apply frame_spec_fail|].
+    cbn [wf_code] in W. apply andb_true_iff in W as [W W4]. apply andb_true_iff in W as [W W3].
+    apply andb_true_iff in W as [W1 W2]. cbn [sizes_ok] in Z. destruct Z as [At [Z Zr]].
+    cbn [frame_inv] in I.
+    assert (Hc : frame_spec h (exec_code inner (child_ctx k target x))).
+    { destruct (child_addr_ok k target x At As Asd) as [A1 A2].
+      apply IH; [exact W2 | exact Z | apply child_frame_inv; assumption | exact A1 | exact A2]. }
+    assert (Hr : frame_spec h (exec_code rest x)).
+    { apply IHr; [exact W4 | exact Zr | apply batch_tail_inv; assumption | exact As | exact Asd]. }
+    set (r := exec_code inner (child_ctx k target x)) in *.
+    destruct (negb (fr_ok r) && negb ign); [apply frame_spec_fail|].
+    set (r1 := if fr_ok r then r else {| fr_ok := true; fr_logs := []; fr_ctr := []; fr_inv := [] |}).
+    assert (H1 : frame_spec h r1) by (unfold r1; destruct (fr_ok r); [exact Hc | reflexivity]).
+    destruct (fr_ok (exec_code rest x)); [apply frame_spec_app; assumption | apply frame_spec_fail].
 Qed.
 
 (** signer of the item = msg.sender of the invocation *)
@@ -149,6 +181,8 @@ Proof.
   - left. apply bytes_eqb_eq; exact W.
   - apply negb_true_iff; exact W.
   - apply negb_true_iff; exact W.
+  - apply negb_true_iff; exact W.
+  - apply negb_true_iff; exact W.
 Qed.
 
 Theorem run_tx_spec h t :
@@ -173,4 +207,29 @@ Proof.
   - exfalso. apply (not_sys_neq _ h N). exact E.
   - repeat split; auto.
   - exfalso. apply (not_sys_neq _ h N). exact E.
+Qed.
+
+(** ** a whole user transaction in the modelled stack: EVM call tree, hooks, ethermint's commit-or-discard *)
+Lemma items_are_messages (ivs : list invocation) : forall ms,
+  map item_of_inv ivs = map Ok ms -> Forall2 (fun iv m => item_of_inv iv = Ok m) ivs ms.
+Proof.
+  induction ivs as [|iv ivs IH]; intros [|m ms] H; try discriminate; [constructor|].
+  cbn [map] in H. inversion H. constructor; [assumption | apply IH; assumption].
+Qed.
+
+Theorem user_tx_end_to_end (S : Type) (exec : msg -> S -> outcome S) (evm : S -> S) t s r s' :
+  wf_tx t = true -> tx_sizes_ok t ->
+  deliver exec evm (fr_logs (run_tx t)) s = (r, s') ->
+  (r = Ok tt ->
+     exists ms,
+       Forall2 (fun iv m => item_of_inv iv = Ok m)
+               (filter (inv_for HStaking) (fr_inv (run_tx t)) ++ filter (inv_for HGov) (fr_inv (run_tx t))) ms /\
+       run_msgs S exec ms (evm s) = Ok s') /\
+  (r <> Ok tt -> s' = s).
+Proof.
+  intros W Z D. split.
+  - intros ->. apply deliver_ok in D. rewrite multi_hook_char, !run_tx_spec in D by assumption.
+    destruct (run_items_ok S exec _ _ _ D) as [ms [E R]]. exists ms. split; [|exact R].
+    apply items_are_messages. rewrite map_app. exact E.
+  - intro N. eapply deliver_fail; eauto.
 Qed.
